@@ -2,6 +2,7 @@ import LentilVerif.Model.Basic
 import LentilVerif.Gen.FieldIdx
 import LentilVerif.Gen.FieldMerge
 import LentilVerif.Gen.FieldDispatch
+import LentilVerif.Gen.FieldAccum
 /-! Executable model of `lentil/field.py` (Field.__mul__, merge, reduce, insert), generic in the value type.
 Index arithmetic comes from the generated kernel (`Gen.*`); the array plumbing is written by hand and tied to the
 implementation by the correspondence harness (tools/harness/c06.py). Mathlib-free. -/
@@ -131,6 +132,20 @@ def reduce [Add K] [Zero K] (fs : List (Fld K)) : List (Option (Fld K)) :=
     | [f] => some f
     | l => mergeL l
 
+/-- value of a generated accumulation term (`Gen.AccExpr`) at a data sample `d` and weight `w`; `nsq` interprets `|·|²` -/
+def _root_.Gen.AccExpr.eval [Mul K] (nsq : K → K) (d w : K) : Gen.AccExpr → K
+  | .data => d
+  | .weight => w
+  | .mul a b => a.eval nsq d w * b.eval nsq d w
+  | .nsq a => nsq (a.eval nsq d w)
+
+/-- what `out[out_slice] += …` leaves in a sample that held `o`: the generated intensity-branch term
+(`Gen.insertAccumIntensity`, with `|·|²` read as `post`) accumulated in place iff the generated flag says `+=`.
+Closed form for the current source: `insertTerm_eq` (Lemmas/Field.lean): `o + post d * w`. The field branch is the same
+term with `post = id` (`Props/C06.insert_accum_spec`). -/
+def insertTerm [Add K] [Mul K] (post : K → K) (o d w : K) : K :=
+  if Gen.insertAccumInPlace.1 then o + Gen.insertAccumIntensity.eval post d w else Gen.insertAccumIntensity.eval post d w
+
 /-- `lentil.field.insert(field, out, intensity=False, weight=w)`: the new content of `out` -/
 def insertArr [Add K] [Mul K] (f : Fld K) (out : Arr K) (w : K) (post : K → K := id) : Arr K :=
   match Gen.insertIdx f.arr.s0 f.arr.s1 f.o0 f.o1 out.s0 out.s1 with
@@ -138,7 +153,22 @@ def insertArr [Add K] [Mul K] (f : Fld K) (out : Arr K) (w : K) (post : K → K 
   | some ((orow, ocol), (frow, fcol)) =>
     { out with get := fun i j =>
         if decide (orow.1 ≤ i) && decide (i < orow.2) && decide (ocol.1 ≤ j) && decide (j < ocol.2)
-        then out.get i j + post (f.arr.get (i - orow.1 + frow.1) (j - ocol.1 + fcol.1)) * w
+        then insertTerm post (out.get i j) (f.arr.get (i - orow.1 + frow.1) (j - ocol.1 + fcol.1)) w
+        else out.get i j }
+
+/-- `insert` with the branch chosen as in the source: `intensity` selects the generated intensity term (with `|·|²` = `nsq`),
+otherwise the generated field term; each accumulates in place iff its generated flag says `+=` -/
+def insertArrMode [Add K] [Mul K] (intensity : Bool) (nsq : K → K) (f : Fld K) (out : Arr K) (w : K) : Arr K :=
+  match Gen.insertIdx f.arr.s0 f.arr.s1 f.o0 f.o1 out.s0 out.s1 with
+  | none => out
+  | some ((orow, ocol), (frow, fcol)) =>
+    let term := if intensity then Gen.insertAccumIntensity else Gen.insertAccumField
+    let inplace := if intensity then Gen.insertAccumInPlace.1 else Gen.insertAccumInPlace.2
+    { out with get := fun i j =>
+        if decide (orow.1 ≤ i) && decide (i < orow.2) && decide (ocol.1 ≤ j) && decide (j < ocol.2)
+        then
+          let t := term.eval nsq (f.arr.get (i - orow.1 + frow.1) (j - ocol.1 + fcol.1)) w
+          if inplace then out.get i j + t else t
         else out.get i j }
 
 end Lentil
